@@ -94,7 +94,7 @@ PROPS['C02'] = Prop(
 )
 
 PROPS['C15'] = Prop(
-    functions=PRINTERS,
+    functions=PRINTERS + ['policy:RuleDefault.__eq__'],
     bounded=[('bounded.lang', 'c15')],
     level='other',
     technique='contract-based deductive verification of the printers (own VC generator + z3); the round trip through the parser is a labelled bounded stand-in',
@@ -225,16 +225,18 @@ PROPS['C11'] = Prop(
 )
 
 PROPS['C12'] = Prop(
-    functions=['policy:Enforcer._handle_deprecated_rule', '_checks:AndCheck.add_check', '_checks:OrCheck.add_check'],
+    functions=['policy:Enforcer._handle_deprecated_rule', '_checks:AndCheck.add_check', '_checks:OrCheck.add_check',
+               'policy:Enforcer.register_default'],
     bounded=[('bounded.loader', 'c12')],
     level='other',
     technique='contract-based frame obligations on the merging function (own VC generator + z3) + bounded interleavings for idempotence',
     explanation='PROVED: _handle_deprecated_rule writes nothing that existed before the call (frame obligation on every '
                 'heap write) and the merged Or node and its operand list are freshly allocated with exactly two operands; '
                 'add_check appends in place to exactly its own list (so calling it on a default\'s check is a visible '
-                'write). BOUNDED: k loads versus one load across up to three enforcers sharing default objects, with '
+                'write); register_default stores a fresh deep copy (relative to the trusted contract of copy.deepcopy), '
+                'never the caller\'s object, and writes nothing else. BOUNDED: k loads versus one load across up to three enforcers sharing default objects, with '
                 'snapshots of the shared objects.',
-    assumptions=COMMON_ASSUME + ['copy.deepcopy at registration is not under contract in this revision (covered by the stand-in)'],
+    assumptions=COMMON_ASSUME + ['copy.deepcopy: trusted contract ($deepcopy_obj): fresh object graph, same classes and content, nothing pre-existing written'],
 )
 
 PROPS['C20'] = Prop(
